@@ -42,6 +42,7 @@ Step(ev) ==
                                        /\ PartOK(j)
                /\ ev.obs.ret # "ok" => ev.obs.ret = "refused" /\ Proj(j) = Proj(to)
     [] ev.a = "encode" ->
+         /\ "code" \in DOMAIN ev.obs
          /\ Encode(ev.arg.a, ev.arg.b, ev.obs.ret, ev.obs.code)
          /\ ev.obs.ret \in {"ok", "refused"}
          /\ ev.arg.a >= 0 /\ ev.arg.a <= ev.arg.b =>
